@@ -64,7 +64,7 @@ def offLoop {α : Type} (hit : Bytes → α → Option Bool) (offset end_ : Nat)
     | some h =>
       let acc' := if h && decide (offset ≤ n) && decide (n < end_) then acc ++ [v] else acc
       let n' := if h then n + 1 else n
-      if n' = end_ + 1 then
+      if n' = addU64 end_ 1 then   -- `numHits == end+1` in uint64: wraps to 0 when offset + limit = 2^64 - 1
         let nk' := if nk = [] then k else nk
         if !countTotal then some { items := acc', next := nk', total := 0 }
         else offLoop hit offset end_ countTotal rest n' acc' nk'
